@@ -124,7 +124,7 @@ Proof.
   unfold Pall. rewrite Forall_forall. split.
   - intros H.
     assert (Ho : onehot fb s (decode fb s)).
-    { apply (pcons_onehot fb). exact (H FConsistency (f1_has_consistency fb Facts)). }
+    { apply (pcons_onehot fb HF1 HT). exact (H FConsistency (f1_has_consistency fb Facts)). }
     assert (Hfo : forallb (fun p => factor_ok (code_sem fb) (decode fb s) (fst p) (snd p))
                           (index_list (s_factors (code_sem fb))) = true).
     { apply (factors_sem fb HF1 HT s _ Ho). intros d deps f Hin. exact (H _ Hin). }
@@ -148,16 +148,49 @@ Proof.
     pose proof (constraint_sem s q c Ho Hin) as K.
     destruct c; cbn [Pc]; try exact I; try (apply K; exact (Hcs _ Hin)).
     + unfold Pcross. apply (crossings_sem fb HF1 HT s q _ 0 Ho Hne (f1_crossings fb Facts)). exact Hcr.
-    + exact (onehot_pcons fb s q Ho).
+    + exact (onehot_pcons fb HF1 s q Ho).
     + exact (proj2 (factors_sem fb HF1 HT s q Ho) Hfac _ _ _ Hin).
 Qed.
 
 (** [onehot] (hence [Pall]) reads only the trial variables *)
+Lemma bit_local s t tr f l :
+  agree_upto GZ s t -> tr < T fb -> isact fb f = true -> l < nlevels fb f ->
+  F1Kinds.bit fb s tr f l = F1Kinds.bit fb t tr f l.
+Proof.
+  intros A Ht Hf Hl. unfold F1Kinds.bit. apply A.
+  pose proof (gvar_range fb HF1 tr f l Ht Hf Hl). pose proof (gvar_le fb HF1 HT tr f l Ht Hf Hl). unfold zn in *. lia.
+Qed.
+
+Lemma find_ext_in {A} (p p' : A -> bool) (xs : list A) :
+  (forall x, In x xs -> p x = p' x) -> find p xs = find p' xs.
+Proof.
+  induction xs as [|x xs IH]; intros H; [reflexivity|]. cbn [find].
+  rewrite (H x (or_introl eq_refl)), IH; [reflexivity|]. intros y Hy. apply H. now right.
+Qed.
+
+Lemma cell_act_local s t tr f :
+  agree_upto GZ s t -> tr < T fb -> isact fb f = true -> cell_act fb s tr f = cell_act fb t tr f.
+Proof.
+  intros A Ht Hf. unfold cell_act. apply find_ext_in. intros l Hl. apply in_seq in Hl.
+  apply bit_local; auto; lia.
+Qed.
+
+Lemma cell_impl_local s t tr f :
+  agree_upto GZ s t -> tr < T fb -> f < nf fb -> isact fb f = false -> cell_impl fb s tr f = cell_impl fb t tr f.
+Proof.
+  intros A Ht Hf Hn. destruct (implied_facts fb HF1 HT f Hf Hn) as (fd & w & Efd & Ew & Hd & _).
+  unfold cell_impl, factor_at. rewrite Efd, Ew.
+  replace (impl_args fb t tr w) with (impl_args fb s tr w); [reflexivity|].
+  unfold impl_args. apply map_ext_in. intros d Hdd.
+  pose proof (proj1 (Forall_forall _ _) Hd d Hdd) as Hda. cbv beta in Hda.
+  now rewrite (cell_act_local s t tr d A Ht Hda).
+Qed.
+
 Lemma onehot_local s t q : agree_upto GZ s t -> onehot fb s q -> onehot fb t q.
 Proof.
-  intros A (H1 & H2 & H3 & H4). split; [exact H1|]. split; [exact H2|]. split; [exact H3|].
-  intros tr f l Ht Hf Hl. rewrite <- (H4 tr f l Ht Hf Hl). unfold F1Kinds.bit. symmetry. apply A.
-  pose proof (gvar_range fb HF1 tr f l Ht Hf Hl). pose proof (gvar_le fb HF1 HT tr f l Ht Hf Hl). unfold zn in *. lia.
+  intros A (H1 & H2 & H3 & H4 & H5). split; [exact H1|]. split; [exact H2|]. split; [exact H3|]. split.
+  - intros tr f l Ht Hf Hl. rewrite <- (H4 tr f l Ht Hf Hl). symmetry. now apply bit_local.
+  - intros tr f Ht Hf Hn. rewrite (H5 tr f Ht Hf Hn). now apply cell_impl_local.
 Qed.
 
 Lemma pall_local s t : agree_upto GZ s t -> (Pall s <-> Pall t).
